@@ -544,3 +544,257 @@ Proof.
   replace (orig - length (snd (next_res d))) with (orig - length d + (length d - length (snd (next_res d)))) by lia.
   exact Hok'.
 Qed.
+
+(* ---------- the whole run under faults ---------- *)
+(* Any buffer size (BufferFull of a too small buffer is preserved), any input, any schedule, any
+   fuel: the run under faults is the run of the twin, or a prefix of the twin's token list (all of
+   it when the failing read is the one that would have found the end of the data) followed by the
+   terminal event Err E_Io. *)
+Theorem stream_run_lock : forall fuel s1 s2, steq s1 s2 ->
+  stream_run fuel s1 = stream_run fuel s2 \/
+  exists pre suf p, stream_run fuel s1 = (pre, (Err E_Io, p)) /\ fst (stream_run fuel s2) = pre ++ suf.
+Proof.
+  induction fuel as [|f IH]; intros s1 s2 Heq.
+  - left. cbn [stream_run]. rewrite (steq_position _ _ Heq). reflexivity.
+  - cbn [stream_run]. destruct (rdr_next_lock s1 s2 Heq) as [Hio|[Ho Hq]].
+    + right. destruct (rdr_next s1) as [o s1']. unfold is_io in Hio. cbn [fst] in Hio. subst o.
+      exists [], (fst (let (o, s') := rdr_next s2 in
+                       match o with
+                       | Ok (Some t) => let '(ts, e) := stream_run f s' in (t :: ts, e)
+                       | Ok None => ([], (Ok tt, rdr_position s'))
+                       | _ => ([], (recast o, rdr_position s'))
+                       end)), (rdr_position s1').
+      split; reflexivity.
+    + destruct (rdr_next s1) as [o1 s1'], (rdr_next s2) as [o2 s2']. cbn [fst snd] in Ho, Hq. subst o2.
+      destruct o1 as [[t|]|e| | |]; try (left; rewrite (steq_position _ _ Hq); reflexivity).
+      destruct (IH s1' s2' Hq) as [E|(pre & suf & p & E1 & E2)].
+      * left. rewrite E. reflexivity.
+      * right. rewrite E1. destruct (stream_run f s2') as [ts2 e2]. cbn [fst] in E2. subst ts2.
+        exists (t :: pre), suf, p. split; reflexivity.
+Qed.
+
+Lemma stream_run_pos input : forall fuel s, sinv input s -> snd (snd (stream_run fuel s)) <= length input.
+Proof.
+  induction fuel as [|f IH]; intros s Hs.
+  - cbn [stream_run snd]. pose proof (sinv_pos _ _ Hs). lia.
+  - cbn [stream_run]. pose proof (rdr_next_sinv input s Hs) as Hs'.
+    destruct (rdr_next s) as [o s']. cbn [snd] in Hs'. pose proof (sinv_pos _ _ Hs') as Hp.
+    destruct o as [[t|]|e| | |]; cbn [snd]; try lia.
+    specialize (IH s' Hs'). destruct (stream_run f s') as [ts e]. exact IH.
+Qed.
+
+(* the terminal event of a run is never a success other than the clean end, and a run that ends
+   with E_Io differs from every fault-free run *)
+Theorem stream_run_prefix input fuel s1 s2 : steq s1 s2 -> sinv input s1 ->
+  stream_run fuel s1 = stream_run fuel s2 \/
+  exists pre suf p, stream_run fuel s1 = (pre, (Err E_Io, p)) /\ fst (stream_run fuel s2) = pre ++ suf /\
+                    p <= length input.
+Proof.
+  intros Heq Hs. destruct (stream_run_lock fuel s1 s2 Heq) as [E|(pre & suf & p & E1 & E2)]; [left; exact E|right].
+  exists pre, suf, p. split; [exact E1|]. split; [exact E2|].
+  pose proof (stream_run_pos input fuel s1 Hs) as Hp. rewrite E1 in Hp. exact Hp.
+Qed.
+
+Corollary run_stream_lock capv sch input :
+  run_stream capv sch input = run_stream capv (clean sch) input \/
+  exists pre suf p, run_stream capv sch input = (pre, (Err E_Io, p)) /\
+                    fst (run_stream capv (clean sch) input) = pre ++ suf /\ p <= length input.
+Proof. unfold run_stream. apply stream_run_prefix; [apply steq_new|apply sinv_new]. Qed.
+
+(* run_stream under an ARBITRARY schedule, buffer fitting the input: the slice lexer's result, or a
+   prefix of the slice lexer's tokens followed by the I/O error *)
+Theorem bin_stream_fault_prefix input sch capv : fits capv input = true ->
+  run_stream capv sch input = run_lexer input \/
+  exists pre suf p, run_stream capv sch input = (pre, (Err E_Io, p)) /\
+                    fst (run_lexer input) = pre ++ suf /\ p <= length input.
+Proof.
+  intros Hfit. rewrite <- (stream_eq_lexer input (clean sch) capv (clean_no_fail_b sch) Hfit).
+  apply run_stream_lock.
+Qed.
+
+(* how a slice-lexer run can end *)
+Lemma lex_run_end : forall fuel l,
+  let o := fst (snd (lex_run fuel l)) in
+  o = Ok tt \/ o = Err E_LexEof \/ o = Err E_InvalidRgb \/ o = OutOfFuel.
+Proof.
+  induction fuel as [|f IH]; intros [d orig]; cbv zeta; [cbn; auto|].
+  cbn [lex_run]. rewrite next_res_lx.
+  destruct (read_token_total d) as [[t [r E]]|[E|E]].
+  - rewrite (next_res_ok _ _ _ E). cbn [fst snd]. specialize (IH (mklx r orig)). cbv zeta in IH.
+    destruct (lex_run f (mklx r orig)) as [ts e]. exact IH.
+  - rewrite (next_res_eof _ E). cbn [fst snd]. destruct d; cbn; auto.
+  - rewrite (next_res_rgb _ E). cbn; auto.
+Qed.
+
+Lemma lex_run_never_io fuel l : fst (snd (lex_run fuel l)) <> Err E_Io.
+Proof.
+  pose proof (lex_run_end fuel l) as H. cbv zeta in H. destruct H as [-> | [-> | [-> | ->]]]; discriminate.
+Qed.
+
+(* ---------- a failing Read ---------- *)
+(* what next() may return while the next event of the schedule is Fail (cap > 0: a real buffer):
+   a token served from the buffer (the Read is not called), the I/O error (the schedule advances
+   by that one event), BufferFull or InvalidRgb (the Read is not called, nothing changes) --
+   never a clean end, never LexEof, never a crash *)
+Definition failing_res (s : rstate) (r : outcome (option btoken) * rstate) : Prop :=
+  match fst r with
+  | Ok (Some _) => snd (snd r) = snd s /\ cap (fst (snd r)) = cap (fst s)
+  | Ok None => False
+  | Err e => (e = E_Io /\ snd (snd r) = rd_after_fail (snd s) /\ kept s (snd r)) \/
+             (e = E_BufferFull /\ snd r = s) \/ (e = E_InvalidRgb /\ snd r = s)
+  | _ => False
+  end.
+
+Theorem next_failing s tl : sched (snd s) = Fail :: tl -> 0 < cap (fst s) -> failing_res s (rdr_next s).
+Proof.
+  destruct s as [b r]. cbn [fst snd]. intros Hs Hcap.
+  unfold rdr_next, rdr_fuel. cbn [run_steps]. unfold rdr_next_step. cbn [fst snd].
+  destruct (read_token_total (win b)) as [[t [w' E]]|[E|E]]; rewrite E.
+  - pose proof (read_token_len _ _ _ E) as L. unfold rdr_advance, bw_advance. cbn [fst snd].
+    replace (Nat.ltb (length (win b)) (length (win b) - length w')) with false by (symmetry; apply Nat.ltb_ge; lia).
+    unfold failing_res. cbn [fst snd cap]. auto.
+  - replace (E_LexEof =? E_LexEof)%N with true by reflexivity.
+    pose proof (rdr_fill_kept (b, r)) as K.
+    unfold rdr_fill, bw_fill_buf in *. cbn [fst snd] in *.
+    destruct (Nat.leb (cap b) (length (win b))).
+    + replace (Nat.eqb (cap b) 0) with false by (symmetry; apply Nat.eqb_neq; lia).
+      unfold failing_res. cbn [fst snd]. auto.
+    + unfold rd_read in *. rewrite Hs in *. unfold failing_res. cbn [fst snd]. left. auto.
+  - replace (E_InvalidRgb =? E_LexEof)%N with false by reflexivity.
+    unfold failing_res. cbn [fst snd]. auto.
+Qed.
+
+(* a run over a failing Read never ends with a clean end or LexEof *)
+Theorem stream_run_failing : forall fuel s tl, sched (snd s) = Fail :: tl -> 0 < cap (fst s) ->
+  let o := fst (snd (stream_run fuel s)) in
+  o = Err E_Io \/ o = Err E_BufferFull \/ o = Err E_InvalidRgb \/ o = OutOfFuel.
+Proof.
+  induction fuel as [|f IH]; intros s tl Hs Hcap; cbv zeta; [cbn; auto|].
+  cbn [stream_run]. pose proof (next_failing s tl Hs Hcap) as Hf. unfold failing_res in Hf.
+  destruct (rdr_next s) as [o s']. cbn [fst snd] in Hf.
+  destruct o as [[t|]|e| | |]; try contradiction.
+  - destruct Hf as [Hd Hc]. specialize (IH s' tl). cbv zeta in IH. rewrite Hd, Hc in IH. specialize (IH Hs Hcap).
+    destruct (stream_run f s') as [ts e]. exact IH.
+  - cbn [recast fst snd]. destruct Hf as [(-> & _)|[(-> & _)|(-> & _)]]; auto.
+Qed.
+
+(* persistent failure, against the twin: the run is the twin's run only if that ends in
+   BufferFull / InvalidRgb (reached from buffered bytes alone) or runs out of fuel; otherwise it is a
+   prefix of the twin's tokens followed by the I/O error *)
+Theorem persistent_run_lock input fuel s1 s2 tl : steq s1 s2 -> sinv input s1 ->
+  sched (snd s1) = Fail :: tl -> 0 < cap (fst s1) ->
+  (stream_run fuel s1 = stream_run fuel s2 /\
+   (fst (snd (stream_run fuel s2)) = Err E_BufferFull \/ fst (snd (stream_run fuel s2)) = Err E_InvalidRgb \/
+    fst (snd (stream_run fuel s2)) = OutOfFuel)) \/
+  exists pre suf p, stream_run fuel s1 = (pre, (Err E_Io, p)) /\ fst (stream_run fuel s2) = pre ++ suf /\
+                    p <= length input.
+Proof.
+  intros Heq Hsi Hs Hcap.
+  destruct (stream_run_prefix input fuel s1 s2 Heq Hsi) as [E|H]; [|right; exact H].
+  pose proof (stream_run_failing fuel s1 tl Hs Hcap) as Hf. cbv zeta in Hf. rewrite E in Hf.
+  destruct Hf as [Hf|Hf]; [right|left; split; [exact E|exact Hf]].
+  pose proof (stream_run_pos input fuel s1 Hsi) as Hp. rewrite E in Hp |- *.
+  destruct (stream_run fuel s2) as [ts [o p]]. cbn [fst snd] in *. subst o.
+  exists ts, [], p. rewrite app_nil_r. auto.
+Qed.
+
+(* persistent failure, against the slice lexer (buffer fitting the pending data): the run yields
+   the tokens already buffered and then the I/O error -- unless the buffered bytes hold an invalid
+   rgb block, which is reported as by the lexer.  Never a clean end, never LexEof. *)
+Theorem persistent_run_lexer : forall fuel s l c tl,
+  st_okf s (lx_data l) (lx_position l) c -> length (lx_data l) <= lx_orig l ->
+  fits_fuel fuel c (lx_data l) = true -> 0 < c ->
+  sched (snd s) = Fail :: tl ->
+  (stream_run fuel s = lex_run fuel l /\
+   (fst (snd (lex_run fuel l)) = Err E_InvalidRgb \/ fst (snd (lex_run fuel l)) = OutOfFuel)) \/
+  exists pre suf p, stream_run fuel s = (pre, (Err E_Io, p)) /\ fst (lex_run fuel l) = pre ++ suf /\
+                    p <= lx_orig l.
+Proof.
+  intros fuel s l c tl Hok Hwf Hfit Hc Hs.
+  pose proof (stream_run_eq fuel (twin s) l c (st_okf_twin _ _ _ _ Hok) Hwf Hfit) as Etw.
+  destruct Hok as (Hpend & Hpos & Hcap).
+  set (input := repeat 0%N (lx_position l) ++ lx_data l).
+  assert (Hsi : sinv input s).
+  { exists (repeat 0%N (lx_position l)). unfold input, rdr_pending, rdr_position in *. rewrite Hpend.
+    split; [reflexivity|]. rewrite repeat_length. symmetry. exact Hpos. }
+  assert (Hlen : length input = lx_orig l).
+  { unfold input, lx_position. rewrite app_length, repeat_length. lia. }
+  destruct (persistent_run_lock input fuel s (twin s) tl (steq_twin s) Hsi Hs ltac:(lia)) as [[E Hend]|H].
+  - rewrite Etw in E, Hend. destruct Hend as [Hend|Hend]; [|left; auto].
+    exfalso. pose proof (lex_run_end fuel l) as He. cbv zeta in He. rewrite Hend in He.
+    destruct He as [He|[He|[He|He]]]; discriminate.
+  - right. rewrite Etw, Hlen in H. exact H.
+Qed.
+
+(* a Read that fails from the first call on: the run is exactly the I/O error at position 0 *)
+Theorem bin_stream_fail_first input capv tl : 0 < capv ->
+  run_stream capv (Fail :: tl) input = ([], (Err E_Io, 0)).
+Proof.
+  intros Hcap. unfold run_stream, rdr_new, bw_new. cbn [stream_run].
+  unfold rdr_next, rdr_fuel. cbn [run_steps fst snd win].
+  unfold rdr_next_step. cbn [fst snd win].
+  replace (read_token []) with (@Err (btoken * bytes) E_LexEof) by reflexivity.
+  replace (E_LexEof =? E_LexEof)%N with true by reflexivity.
+  unfold rdr_fill, bw_fill_buf. cbn [fst snd cap win length].
+  replace (Nat.leb capv 0) with false by (symmetry; apply Nat.leb_gt; exact Hcap).
+  unfold rd_read. cbn [sched]. reflexivity.
+Qed.
+
+(* ---------- positions and delivered bytes ---------- *)
+Definition pos_ok (s : rstate) : Prop := finv s /\ rdr_position s <= delivered (snd s).
+
+Lemma finv_pos_ok s : finv s -> pos_ok s.
+Proof. intros H. split; [exact H|apply finv_le; exact H]. Qed.
+
+Theorem bin_position_le_delivered s : finv s ->
+  pos_ok (snd (rdr_next s)) /\ pos_ok (snd (rdr_read s)) /\
+  (forall n, pos_ok (snd (rdr_read_bytes n s))) /\ pos_ok (snd (rdr_skip_container s)).
+Proof.
+  intros H. split; [apply finv_pos_ok, rdr_next_finv, H|]. split; [apply finv_pos_ok, rdr_read_finv, H|].
+  split; [intros n; apply finv_pos_ok, rdr_read_bytes_finv, H|apply finv_pos_ok, rdr_skip_container_finv, H].
+Qed.
+
+(* with the stream view: delivered counts exactly the bytes taken from the data *)
+Lemma delivered_exact input s : sinv input s -> finv s -> delivered (snd s) + length (rest (snd s)) = length input.
+Proof.
+  intros (pre & Hin & Hlen) Hf. unfold finv, fill_inv in Hf. rewrite Hin, !app_length. lia.
+Qed.
+
+(* ---------- retry after an I/O error ---------- *)
+(* next() advances the window only when it returns a token, so the reader returned with E_Io
+   stands on the same pending data at the same position: the retried call fails again or
+   returns the slice lexer's answer for the call that failed; when the rest of the schedule is
+   fault-free it returns that answer. *)
+Theorem bin_next_retry s d pos c s' :
+  st_okf s d pos c -> tok_fits c d = true -> rdr_next s = (Err E_Io, s') ->
+  st_okf s' d pos c /\
+  ((exists s'', rdr_next s' = (Err E_Io, s'') /\ st_okf s'' d pos c) \/
+   (exists s'', rdr_next s' = (fst (next_res d), s'') /\
+                st_okf s'' (snd (next_res d)) (pos + (length d - length (snd (next_res d)))) c)) /\
+  (BinReader.no_fail (sched (snd s')) = true ->
+   exists s'', rdr_next s' = (fst (next_res d), s'') /\
+               st_ok s'' (snd (next_res d)) (pos + (length d - length (snd (next_res d)))) c).
+Proof.
+  intros Hok Hfit E.
+  assert (Hok' : st_okf s' d pos c) by (eapply kept_okf; [apply rdr_next_io_kept; exact E|exact Hok]).
+  split; [exact Hok'|]. split; [apply bin_next_fault_lexer; assumption|].
+  intros Hnf. apply rdr_next_spec; [apply st_okf_nofail; assumption|exact Hfit].
+Qed.
+
+Theorem bin_next_retry_cursor s l c s' :
+  st_okf s (lx_data l) (lx_position l) c -> length (lx_data l) <= lx_orig l -> tok_fits c (lx_data l) = true ->
+  rdr_next s = (Err E_Io, s') ->
+  st_okf s' (lx_data l) (lx_position l) c /\
+  (BinReader.no_fail (sched (snd s')) = true ->
+   exists s'', rdr_next s' = (fst (lx_next_token l), s'') /\
+               st_ok s'' (lx_data (snd (lx_next_token l))) (lx_position (snd (lx_next_token l))) c).
+Proof.
+  intros Hok Hwf Hfit E.
+  assert (Hok' : st_okf s' (lx_data l) (lx_position l) c) by (eapply kept_okf; [apply rdr_next_io_kept; exact E|exact Hok]).
+  split; [exact Hok'|]. intros Hnf. apply next_eq_lexer; [apply st_okf_nofail; assumption|exact Hwf|exact Hfit].
+Qed.
+
+(* read_bytes is resumable in the same way: the error state is on the same pending data *)
+Theorem bin_read_bytes_io_kept n s s' d pos c :
+  st_okf s d pos c -> rdr_read_bytes n s = (Err E_Io, s') -> st_okf s' d pos c.
+Proof. intros Hok E. eapply kept_okf; [apply (rdr_read_bytes_io_kept n); exact E|exact Hok]. Qed.
